@@ -12,14 +12,21 @@ pub fn c17_in_image(x: f64, y: f64, eps: f64) -> bool {
   au <= (2.0 - ay) + eps
 }
 
-/// proj: range, sign, image (no libm in the oracle: usable by the solver and natively)
-pub fn p_c17_proj_range(lon: f64, lat: f64) {
+/// proj: range and sign (no libm in the oracle: usable by the solver and natively)
+pub fn p_c17_proj_basic(lon: f64, lat: f64) {
   if !(lat >= -0.5 * REF_PI && lat <= 0.5 * REF_PI && lon.abs() <= 25.2) { return; }
   let (x, y) = hp::proj(lon, lat);
   assert!(x >= -8.0 && x <= 8.0 && y >= -2.0 && y <= 2.0, "C17: proj out of [-8, 8] x [-2, 2]");
   let neg = lon.to_bits() >> 63 == 1;
   assert!(if neg { x <= 0.0 } else { x >= 0.0 }, "C17: x does not have the sign of the longitude");
   assert!((y.to_bits() >> 63 == 1) == (lat.to_bits() >> 63 == 1) || y == 0.0, "C17: y does not have the sign of the latitude");
+}
+
+/// proj: range, sign and image (the closed facets of the HEALPix image, slack 2^-50 on the oblique polar borders)
+pub fn p_c17_proj_range(lon: f64, lat: f64) {
+  if !(lat >= -0.5 * REF_PI && lat <= 0.5 * REF_PI && lon.abs() <= 25.2) { return; }
+  p_c17_proj_basic(lon, lat);
+  let (x, y) = hp::proj(lon, lat);
   let xa = if x < 0.0 { x + 8.0 } else { x };
   assert!(c17_in_image(xa, y, 1.0 / ((1u64 << 50) as f64)), "C17: proj leaves the HEALPix image (facets)");
 }
